@@ -391,8 +391,9 @@ func (k *Keeper) IterateClientStates(ctx sdk.Context, storePrefix []byte, cb fun
 	defer sdk.LogDeferred(k.Logger(ctx), func() error { return iterator.Close() })
 	for ; iterator.Valid(); iterator.Next() {
 		path := string(iterator.Key())
-		if !strings.Contains(path, host.KeyClientState) {
-			// skip non client state keys
+		// skip non client state keys: only clients/{clientID}/clientState holds a client state.
+		// Other keys of a client store (e.g. consensus state iteration keys) may contain arbitrary bytes.
+		if split := strings.Split(path, "/"); len(split) != 3 || split[2] != host.KeyClientState {
 			continue
 		}
 
